@@ -476,6 +476,27 @@ func (x *Exec) jsonDecodeInto(st *State, old, nw Value, tgt, src types.Type, dep
 	return x.deepCopy(st, nw, map[int]int{}, 0)
 }
 
+// trySnapshot computes the JSON-visible leaves of a value; false when the value has a shape the
+// snapshot does not cover (the document then simply never compares equal to another one).
+func (x *Exec) trySnapshot(st *State, iv IfaceV) (leaves []snapLeaf, ok bool) {
+	defer func() {
+		if r := recover(); r != nil {
+			if _, isUns := r.(unsupportedErr); isUns {
+				leaves, ok = nil, false
+				return
+			}
+			panic(r)
+		}
+	}()
+	if iv.typ == nil {
+		return []snapLeaf{{mark: "null"}}, true
+	}
+	var out []snapLeaf
+	out = append(out, snapLeaf{mark: "type:" + iv.typ.String()})
+	x.snapshot(st, iv.val, iv.typ, &out, 0)
+	return out, true
+}
+
 func registerSnapshotIntrinsics() {
 	// encoding/json abstraction: Marshal(v) keeps a deep snapshot of v and
 	// returns the bytes "json#<k>"; Unmarshal of such bytes into a pointer of
@@ -488,7 +509,74 @@ func registerSnapshotIntrinsics() {
 		if c, ok := st.ghost["$jsoncount"]; ok {
 			n = int(c.(*Term).val)
 		}
+		// Marshal is a function of the JSON-visible content: a value equal to one marshalled
+		// earlier on this path yields the same bytes (decided concretely where possible, else
+		// the path forks on the equality).  All choices are made before any mutation.
+		id := n
+		leaves, okSnap := x.trySnapshot(st, iv)
+		if okSnap {
+			var prev [][]snapLeaf
+			if v, ok := st.ghost["$jsonleaves"]; ok {
+				prev = v.(snapList).l
+			}
+			var conds []*Term
+			var nots []*Term
+			for _, p := range prev {
+				eq := x.tc.False
+				if p != nil {
+					eq = x.snapEq(p, leaves)
+				}
+				conds = append(conds, x.tc.And(append(append([]*Term(nil), nots...), eq)...))
+				nots = append(nots, x.tc.Not(eq))
+			}
+			conds = append(conds, x.tc.And(nots...))
+			allConst := true
+			for _, c := range conds {
+				if !c.cst {
+					allConst = false
+				}
+			}
+			k := len(prev)
+			if allConst {
+				for j, c := range conds {
+					if c.IsTrue() {
+						k = j
+						break
+					}
+				}
+			} else {
+				k = x.choose(st, conds, "json.Marshal equal to an earlier document")
+			}
+			if k < len(prev) {
+				id = k
+			}
+		}
+		if id != n {
+			bs := x.strConst(fmt.Sprintf("json#%d", id)).alts[0].b
+			arr := &ArrayV{e: make([]Value, len(bs))}
+			for k, b := range bs {
+				arr.e[k] = b
+			}
+			p := st.alloc(arr)
+			return ret1(TupleV{SliceV{base: p, len: len(bs), cap: len(bs)}, IfaceV{}})
+		}
 		st.ghost["$jsoncount"] = x.tc.Const(64, uint64(n+1))
+		{
+			var prev [][]snapLeaf
+			if v, ok := st.ghost["$jsonleaves"]; ok {
+				prev = v.(snapList).l
+			}
+			np := append([][]snapLeaf(nil), prev...)
+			for len(np) < n {
+				np = append(np, nil)
+			}
+			if okSnap {
+				np = append(np, leaves)
+			} else {
+				np = append(np, nil)
+			}
+			st.ghost["$jsonleaves"] = snapList{l: np}
+		}
 		var snap Value = iv
 		if iv.typ != nil {
 			snap = IfaceV{typ: iv.typ, val: x.deepCopy(st, iv.val, map[int]int{}, 0)}
